@@ -335,8 +335,8 @@ Proof.
   - by apply (W_pred s HW).
   - assert (min_free s ≠ 1%positive); [|lia].
     intros E. rewrite E, (W_term s HW) in Hfree. done.
-  - apply (Counts_ref s L HC). by apply elem_of_dom.
-  - apply (Counts_ref s L HC). by apply elem_of_dom.
+  - apply (Counts_ref s L _ HC). by apply elem_of_dom.
+  - apply (Counts_ref s L _ HC). by apply elem_of_dom.
   - apply IH.
     + by apply J_step.
     + change (succ (gc_del s u t)) with (delete u (succ s)).
@@ -393,22 +393,144 @@ Proof.
   - destruct (Hl u ltac:(left)) as [Hu0 [c Hc]].
     assert (Href : ref u s = (Ok c, s)).
     { unfold ref. rewrite decide_False by done. by apply getref_ok. }
-    cbn [foldM]. rewrite (bind_ok _ _ _ _ _ (bind_ok _ _ _ _ _ Href)).
-    destruct (decide (c = 0)) as [->|Hc0]; cbn [ret].
-    + destruct (IH (acc ∪ {[absn u]})) as (X&HX&HXs).
-      { intros x Hx. apply Hl. by right. }
-      exists X. split; [done|]. intros n. rewrite HXs, elem_of_union, elem_of_singleton.
-      split.
-      * intros [[?|->]|(x&Hx&?&?)]; [by left|right; exists u; split_and!; [left|done..]|].
+    assert (Hbody : (r <- ref u ;;
+              if decide (r = 0) then ret (acc ∪ {[absn u]}) else ret acc) s
+            = (Ok (if decide (c = 0) then acc ∪ {[absn u]} else acc), s)).
+    { rewrite (bind_ok _ _ _ _ _ Href). by case_decide. }
+    cbn [foldM]. rewrite (bind_ok _ _ _ _ _ Hbody).
+    destruct (IH (if decide (c = 0) then acc ∪ {[absn u]} else acc)) as (X&HX&HXs).
+    { intros x Hx. apply Hl. by right. }
+    exists X. split; [done|]. intros n. rewrite HXs.
+    destruct (decide (c = 0)) as [->|Hc0].
+    + rewrite elem_of_union, elem_of_singleton. split.
+      * intros [[?| ->]|(x&Hx&?&?)]; [by left|right; exists u; split_and!; [left|done..]|].
         right. exists x. split_and!; [by right|done..].
       * intros [?|(x&Hx&E&Hr)]; [by left; left|].
         apply elem_of_cons in Hx as [->|Hx]; [left; right; done|].
         right. exists x. done.
-    + destruct (IH acc) as (X&HX&HXs).
-      { intros x Hx. apply Hl. by right. }
-      exists X. split; [done|]. intros n. rewrite HXs. split.
+    + split.
       * intros [?|(x&Hx&?&?)]; [by left|]. right. exists x. split_and!; [by right|done..].
       * intros [?|(x&Hx&E&Hr)]; [by left|].
         apply elem_of_cons in Hx as [->|Hx]; [congruence|].
         right. exists x. done.
+Qed.
+
+(** ** [collect_garbage] *)
+Definition roots_ok (s : st) (roots : option (list Z)) : Prop :=
+  match roots with None => True | Some l => ∀ u, u ∈ l → valid s u end.
+
+Lemma gc_run (C : Prop) roots s L r s' :
+  Inv s → Counts s L → roots_ok s roots → (C → roots = None) →
+  collect_garbage roots s = (r, s') →
+  r = Ok tt ∧ ite_tab s' = ∅ ∧ Inv s' ∧ J C s L s' ∅.
+Proof.
+  intros HI HC Hroots HCr. unfold collect_garbage. cbn [bind get].
+  set (l := match roots with
+            | None => Z.pos <$> elements (dom (refc s)) | Some l => l end).
+  assert (Hl : ∀ u, u ∈ l → u ≠ 0%Z ∧ is_Some (refc s !! absn u)).
+  { intros u Hu. subst l. destruct roots as [l|].
+    - destruct (Hroots u Hu) as [? Hs]. split; [done|].
+      apply elem_of_dom. rewrite (inv_ref _ HI). by apply elem_of_dom.
+    - apply elem_of_list_fmap in Hu as (p&->&Hp). apply elem_of_elements in Hp.
+      split; [done|]. rewrite absn_pos. by apply elem_of_dom. }
+  destruct (gc_scan s l ∅ Hl) as (X&HX&HXs).
+  rewrite (bind_ok _ _ _ _ _ HX).
+  destruct (gc_loop (S (len s)) (X ∖ {[1%positive]}) s) as [r1 s1] eqn:Eloop.
+  pose proof Eloop as Eloop'.
+  apply (gc_loop_spec C s L) in Eloop' as [-> HJ]; [| |unfold len; lia].
+  2:{ split.
+      - by apply Inv_W.
+      - done.
+      - done.
+      - done.
+      - done.
+      - reflexivity.
+      - intros n Hn. apply elem_of_difference in Hn as [Hn Hn1].
+        rewrite elem_of_singleton in Hn1.
+        apply HXs in Hn as [Hn|(u&Hu&E&Hr)]; [by apply elem_of_empty in Hn|].
+        split_and!; [done| |done]. rewrite <- (inv_ref _ HI). apply elem_of_dom. eauto.
+      - intros n Hn. by apply (reach_dom s (fun k => 0 < L k) n HI).
+      - intros HCc n Hn Hn1 Hr. apply elem_of_difference.
+        split; [|by rewrite elem_of_singleton].
+        apply HXs. right. exists (Z.pos n). split_and!; [|done|done].
+        subst l. rewrite (HCr HCc). apply elem_of_list_fmap. exists n. split; [done|].
+        apply elem_of_elements. by rewrite (inv_ref _ HI). }
+  rewrite (bind_ok _ _ _ _ _ Eloop). cbn [bind modify get].
+  assert (Hsz : size (succ s1) ≤ size (succ s)).
+  { assert (dom (succ s1) ⊆ dom (succ s)) as Hd
+      by (apply subseteq_dom, (j_sub _ _ _ _ _ HJ)).
+    apply subseteq_size in Hd. by rewrite !size_dom in Hd. }
+  unfold assert. rewrite bool_decide_eq_true_2 by exact Hsz.
+  intros [= <- <-]. split; [done|split; [done|split; [exact (j_inv _ _ _ _ _ HJ)|]]].
+  destruct HJ. by split.
+Qed.
+
+(** safety, for both calling conventions *)
+Theorem gc_safe roots s L r s' :
+  Inv s → Counts s L → roots_ok s roots →
+  collect_garbage roots s = (r, s') →
+  r = Ok tt ∧ Inv s' ∧ Counts s' L ∧ ite_tab s' = ∅ ∧
+  vars s' = vars s ∧ lvl2var s' = lvl2var s ∧ frame s s' ∧
+  succ s' ⊆ succ s ∧
+  (∀ n, n = 1%positive ∨ reach (succ s) (fun k => 0 < L k) n → n ∈ dom (succ s')).
+Proof.
+  intros HI HC Hr Hrun.
+  destruct (gc_run False roots s L r s' HI HC Hr ltac:(done) Hrun) as (->&Hite&HI'&HJ).
+  split_and!; try done; try apply HJ.
+  intros n [->|Hn]; [|by apply (j_reach _ _ _ _ _ HJ)].
+  apply elem_of_dom. rewrite (inv_term _ HI'). by eexists.
+Qed.
+
+Theorem gc_rooted_safe (roots : list Z) s L r s' :
+  Inv s → Counts s L → (∀ u, u ∈ roots → valid s u) →
+  collect_garbage (Some roots) s = (r, s') →
+  r = Ok tt ∧ Inv s' ∧ Counts s' L ∧ ite_tab s' = ∅ ∧
+  vars s' = vars s ∧ lvl2var s' = lvl2var s ∧ frame s s' ∧
+  succ s' ⊆ succ s ∧
+  (∀ n, n = 1%positive ∨ reach (succ s) (fun k => 0 < L k) n → n ∈ dom (succ s')).
+Proof. intros HI HC Hr. by apply gc_safe. Qed.
+
+(** exactness, for [collect_garbage()] *)
+Theorem gc_exact s L r s' :
+  Inv s → Counts s L →
+  collect_garbage None s = (r, s') →
+  r = Ok tt ∧ Inv s' ∧ Counts s' L ∧ ite_tab s' = ∅ ∧
+  vars s' = vars s ∧ lvl2var s' = lvl2var s ∧ last_len s' = last_len s ∧
+  (∀ n, n ∈ dom (succ s') ↔ n = 1%positive ∨ reach (succ s) (fun k => 0 < L k) n) ∧
+  (∀ n t, succ s' !! n = Some t → succ s !! n = Some t).
+Proof.
+  intros HI HC Hrun.
+  destruct (gc_run True None s L r s' HI HC I ltac:(done) Hrun) as (->&Hite&HI'&HJ).
+  split_and!; try done; try apply HJ.
+  - intros n. split.
+    + intros Hn. destruct (decide (n = 1%positive)) as [|Hn1]; [by left|right].
+      by apply (exit_reach s L s' HJ).
+    + intros [->|Hn]; [|by apply (j_reach _ _ _ _ _ HJ)].
+      apply elem_of_dom. rewrite (inv_term _ HI'). by eexists.
+  - intros n t Hn. apply (lookup_weaken _ _ _ _ Hn (j_sub _ _ _ _ _ HJ)).
+Qed.
+
+(** ** Meaning of the surviving references *)
+Lemma D_shrink s s' u a :
+  succ s' ⊆ succ s → vars s' = vars s → lvl2var s' = lvl2var s →
+  Inv s' → valid s' u → D s' u a = D s u a.
+Proof.
+  intros Hsub Hv Hl HI' Hu. symmetry. apply (D_extends s' s); [|done|done].
+  by split_and!.
+Qed.
+
+Theorem gc_preserves_den roots s L r s' u :
+  Inv s → Counts s L → roots_ok s roots →
+  collect_garbage roots s = (r, s') →
+  u ≠ 0%Z →
+  absn u = 1%positive ∨ reach (succ s) (fun k => 0 < L k) (absn u) →
+  valid s' u ∧ valid s u ∧ ∀ a, D s' u a = D s u a.
+Proof.
+  intros HI HC Hr Hrun Hu0 Hu.
+  destruct (gc_safe roots s L r s' HI HC Hr Hrun)
+    as (_&HI'&_&_&Hv&Hl&_&Hsub&Hkeep).
+  assert (Hvu : valid s' u) by (split; [done|]; apply elem_of_dom, Hkeep, Hu).
+  split; [done|]. split.
+  - apply (valid_extends s' s); [by split_and!|done].
+  - intros a. by apply D_shrink.
 Qed.
